@@ -472,6 +472,8 @@ def run_scaling(shard, ctx, sm, rng):
         big_n = {"reportluns": 32768, "getlbastatus": 32768, "prin.readkeys": 32768, "reporttargetportgroups": 8192, "readelementstatus": 8192,
                  "prin.readfullstatus": 4096, "reportpriority": 4096}.get(name)
         stages = [big_n] if big_n is None else [big_n, big_n * 4]  # the larger pair only if the first one is proportional
+        if name in ("reporttargetportgroups", "reportpriority", "prin.readfullstatus") and big_n is not None:
+            stages.append(big_n * 16)  # (their second stage is still below a megabyte)
         for big_n in stages:
             if cpu_stage(ctx, name, f, cls, rng, cpu, big_n, vbig, n1, n2):
                 break
@@ -479,7 +481,7 @@ def run_scaling(shard, ctx, sm, rng):
             # responses built to be expensive for hashing: entries that are all different but whose natural keys (the integer value
             # of an identifier; the tuple of a descriptor's fields) have one and the same hash value
             for label, mk in ADVERSARIAL.get(name, ()):
-                small_b, big_b = mk(2048), mk(8192)
+                small_b, big_b = (mk(8192), mk(32768)) if name in ("readelementstatus", "reporttargetportgroups") else (mk(2048), mk(8192))
                 over, ratios = 0, []
                 for _round in range(3):
                     t1, t2 = min(cpu(small_b, {}), cpu(small_b, {})), cpu(big_b, {})
@@ -550,7 +552,27 @@ def adversarial_reportluns(n):
     return len(body).to_bytes(4, "big") + bytes(4) + body
 
 
-ADVERSARIAL = {"getlbastatus": [("extents whose field tuples share one hash value", adversarial_getlbastatus)],
+def adversarial_element_pages(n):
+    """n element status pages with one descriptor each (a changer that reports every element in a page of its own)"""
+    pages = b"".join(bytes([2, 0, 0, 12, 0, 0, 0, 12]) + (i & 0xFFFF).to_bytes(2, "big") + bytes([1, 0, 0, 0, 0, 0, 0, 0, 0, 0]) for i in range(n * 2))
+    return bytes([0, 0]) + ((n * 2) & 0xFFFF).to_bytes(2, "big") + bytes(1) + len(pages).to_bytes(3, "big") + pages
+
+
+def adversarial_port_groups(n):
+    """n target port groups of four ports each whose port identifiers descend"""
+    body = bytearray()
+    port = 0xFFFF
+    for i in range(n // 2):
+        body += bytes([0x80 | (i % 4), 0x8F]) + (i & 0xFFFF).to_bytes(2, "big") + bytes([0, 0, 0, 4])
+        for _p in range(4):
+            body += bytes(2) + (port & 0xFFFF).to_bytes(2, "big")
+            port = (port - 1) & 0xFFFF or 0xFFFF
+    return len(body).to_bytes(4, "big") + bytes(body)
+
+
+ADVERSARIAL = {"readelementstatus": [("one element per page, tens of thousands of pages", adversarial_element_pages)],
+               "reporttargetportgroups": [("port identifiers in descending order", adversarial_port_groups)],
+               "getlbastatus": [("extents whose field tuples share one hash value", adversarial_getlbastatus)],
                "reportpriority": [("TransportIDs congruent modulo 2**61-1", adversarial_reportpriority)],
                "reportluns": [("LUNs congruent modulo 2**61-1", adversarial_reportluns)]}
 
@@ -658,6 +680,26 @@ def run_vpd_any(shard, ctx, sm, rng):
                 pass
             return _time.thread_time() - t0
 
+        # ... and short texts that mean something to string formatting (a device's text must never be *used* as a format): with an
+        # inconsistent length byte in front, as a page of ASCII information would carry it.  The peak of memory is watched
+        for txt in (b"%(page_code)150000000d", b"%150000000d", b"{0:>150000000}", b"%(x)s %n %*d", b"{page_code:150000000}"):
+            for ascii_len in (len(txt), 0xFF, 1):
+                body = bytes([ascii_len]) + txt + b"\0"
+                m = bytes([0x00, page]) + len(body).to_bytes(2, "big") + body
+                tracemalloc.start()
+                try:
+                    try:
+                        Inquiry.unmarshall_datain(bytearray(m), evpd=1)
+                    except Exception:  # noqa: BLE001
+                        pass
+                    peak = tracemalloc.get_traced_memory()[1]
+                finally:
+                    tracemalloc.stop()
+                ctx.count("format_hostile_texts_decoded")
+                if peak > (8 << 20):
+                    ctx.fail("C11:inquiry.vpd%02x.memory.format_text" % page, "VPD page %02Xh of %d bytes carrying the text %r: %d MiB allocated while decoding" % (page, len(m), txt, peak >> 20),
+                             {"decoder": "inquiry.vpd%02x" % page, "buffer": m})
+                    break
         small_m, big_m = text_page(15000), text_page(60000)
         over = 0
         ratios = []
